@@ -243,5 +243,35 @@ func VerifHarness_C13_rt() {
 			}
 		}
 	}
+	// the parsed message is edited: its group is replaced by a longer one, and the message goes through the wire again
+	if dict != nil && (place == 1 || place == 3) && ndBool("group-replaced-in-the-parsed-message") {
+		verifCase("group-replaced")
+		g2 := NewRepeatingGroup(c13Group, c13Template())
+		for i := 0; i < len(want)+1; i++ {
+			e := g2.Add()
+			e.SetString(c13Delim, "z")
+			e.SetString(c13Opt, "y")
+		}
+		p.Body.SetGroup(g2)
+		q := NewMessage()
+		err2 := ParseMessageWithDataDictionary(q, bytes.NewBuffer(p.build()), nil, dict)
+		verifAssert(err2 == nil, "edited-message-parses")
+		if err2 != nil {
+			return
+		}
+		got2 := NewRepeatingGroup(c13Group, c13Template())
+		verifAssert(q.Body.GetGroup(got2) == nil && got2.Len() == len(want)+1, "replacement-group-read-back")
+		if place == 1 {
+			v, ok := val(&q.Body.FieldMap, c13Follow)
+			verifAssert(ok && verifBytesEq(v, follow), "field-next-to-replaced-group-still-in-body")
+		} else {
+			og := NewRepeatingGroup(c13Other, c13OtherTemplate())
+			verifAssert(q.Body.GetGroup(og) == nil && og.Len() == 1, "group-next-to-replaced-group-still-readable")
+			if og.Len() == 1 {
+				v, ok := val(&og.Get(0).FieldMap, c13OtherDelim)
+				verifAssert(ok && verifBytesEq(v, follow), "group-next-to-replaced-group-still-readable")
+			}
+		}
+	}
 	verifObserve("entries", got.Len())
 }
